@@ -666,7 +666,7 @@ class Executor:
             if isinstance(v, VExc):
                 raise PyRaise(v)
             cname, args = ast.unparse(e), []
-        cname = {"error": "struct.error"}.get(cname, cname)
+        cname = self.resolve_exc({"error": "struct.error"}.get(cname, cname))
         exc = VExc(cname, tuple(args), f"L{s.lineno}")
         if s.cause is not None:
             pass  # `from e` does not change the class
@@ -981,6 +981,8 @@ class Executor:
             return {"len": it.nr, "get": lambda ex, i: G.SRowRef(it, i)}
         if isinstance(it, G.SGridView):
             return {"len": G.length(ex_ := self, it), "get": lambda ex, i: G.SRowRef(it.grid, it.lo + i)}
+        if isinstance(it, Custom) and hasattr(it, "length") and hasattr(it, "getitem"):
+            return {"len": it.length(self), "get": lambda ex, i: it.getitem(ex, wrap(i), 0)}
         raise Unsupported(f"iteration over {type(it).__name__}")
 
     def unroll_for(self, s, it, env):
@@ -1069,13 +1071,34 @@ class Executor:
             if s.finalbody:
                 self.exec_block(s.finalbody, env)
 
+    def resolve_exc(self, name):
+        """The exception class a name denotes in the module being executed: a module that imports the library's own
+        NotImplementedError (numbers_parser.exceptions) shadows the builtin of that name."""
+        name = self.ctx.exc_alias.get(name, name)
+        if name == "NotImplementedError":
+            from . import extract as _ex
+            mod = getattr(self.finfo, "mod", None)
+            cache = self.ctx.__dict__.setdefault("_exc_imports", {})
+            if mod not in cache:
+                names = set()
+                try:
+                    _, tree = _ex.load_module(mod)
+                    for n in ast.walk(tree):
+                        if isinstance(n, ast.ImportFrom) and n.module and n.module.endswith("exceptions"):
+                            names.update(a.asname or a.name for a in n.names)
+                except Exception:  # noqa: BLE001
+                    pass
+                cache[mod] = names
+            if name in cache[mod]:
+                return "NotImplementedError_"
+        return name
+
     def handler_matches(self, h, exc, env):
         if h.type is None:
             return True
         types = h.type.elts if isinstance(h.type, ast.Tuple) else [h.type]
         for t in types:
-            name = ast.unparse(t)
-            name = self.ctx.exc_alias.get(name, name)
+            name = self.resolve_exc(ast.unparse(t))
             if exc_isa(exc.cls, name):
                 return True
         return False
@@ -1088,7 +1111,7 @@ class Executor:
             try:
                 self.exec_block(s.body, env)
             except PyRaise as pr:
-                if not any(exc_isa(pr.exc.cls, self.ctx.exc_alias.get(n, n)) for n in names):
+                if not any(exc_isa(pr.exc.cls, self.resolve_exc(n)) for n in names):
                     raise
             return
         # generic `with <expr> [as name]:` - the context manager is assumed not to swallow exceptions (true of files,
